@@ -20,6 +20,17 @@ import PM.DomWalk
 import Proofs.DomWalk
 import Proofs.PlacementNoInternal
 import Proofs.DomWalkSafe
+import PM.RoundTrip
+import Proofs.RoundTripCore
+import Proofs.RoundTrip
+import Proofs.RoundTripWalk
+import Proofs.RoundTripDoc
+import Proofs.RoundTripSer
+import Proofs.RoundTripMarks
+import Proofs.RoundTripForest
+import Proofs.RoundTripSerM
+import Proofs.RoundTripFull
+import Proofs.RoundTripAll
 namespace PM.C19
 open PM.Dom
 
@@ -841,5 +852,333 @@ example : (normalizeList [.elem "li" [] [] [.other], .other, .elem "ul" [] [] []
 open PM.DomWalk in
 example : (normalizeList [.elem "li" [] [] [], .other, .elem "ul" [] [] []]).length = 3 := by decide
 end Examples
+
+/-! ## Export then import (PM/RoundTrip.lean; tied by whole round trips: HTML, oracle-filled abstract DOM, document)
+
+  `RoundTrip.serializeDoc` applies a schema's `toDOM` functions (`ToDom`) to a document and runs the serializer model;
+  `RoundTrip.toDomList` turns the emitted DOM into the abstract DOM of the walk *with the oracle filled in* (which rules'
+  selectors match, what the attribute-copying `get_attrs` answer) for parse rules in the restricted form the bundled
+  schemas use; `RoundTrip.roundTrip` = serialise, convert, `parse`.  `RoundTrip.rtOk R D doc` is the decidable
+  hypothesis: `doc` is a valid normalised document, every node's / mark's emitted element is matched first by a
+  context-free rule that maps back to the same type with the same attributes, and every text is whitespace-normal for the
+  whitespace mode in force (`textOk`, `lastOk`).
+
+  **`roundtrip`** (proved): `rtOk R D doc = true → roundTrip R D doc = .ok doc` — export then import is the identity, for
+  every schema given by its tables, `toDOM` functions `D` and parse rules `R` in restricted form, and every document
+  satisfying the decidable hypothesis.  The tie checks both sides of it on every generated document: the model's round trip
+  equals the real one exactly (HTML, oracle-filled DOM, parsed document), and `rtOk` ⇒ the real round trip is the identity.
+
+  How it is put together (the `…_partial` theorems below are its lemmas, kept under their names):
+  * mark-free documents: `roundtrip_markfree_partial` = `roundtrip_export_canonical_partial` (the serializer's output
+    converts to the canonical DOM) + `roundtrip_import_canonical_partial` (the walk over the canonical DOM rebuilds the
+    document), by induction over the document from the steps `roundtrip_{text,insert,enter,open,close,finish}_partial`;
+  * marks: `roundtrip_marks_export_partial` (what `serialize_fragment` emits for the children of a textblock is the forest
+    `build kids [] []`: keep the common prefix of marks open, close the rest, open the new ones) and
+    `roundtrip_marks_import_partial` (the walk over that forest rebuilds the nodes with their marks), from the steps
+    `roundtrip_marks_{open,insert,close,element}_partial` with the invariant `MarkSt` (active ++ pending marks of the open
+    context = the marks of the enclosing emitted mark elements); `follows` / `Chain` come from validity (`checkNode` ⇒
+    canonical mark sets ⇒ `CanonP`);
+  * Proofs/RoundTripAll.lean joins them: `forest_toDom` (the emitted forest converts to the forest DOM — adjacent texts at
+    one level would carry equal marks, so nothing is merged), the document induction with the forest branch
+    (`walk_nodeM` / `walk_kidsM`, `ser_dom_nodeM` / `ser_dom_listM`), `roundtrip_core`. -/
+
+open PM PM.RoundTrip PM.FromDom in
+/-- **text survives** (stage i of the round trip): inside an open context `cx` (type `t`, automaton state `q`, nothing
+    pending) of inline content, a text that is whitespace-normal for the mode of `cx` (`textOk`) and — if it starts with a
+    white space — does not meet the leading-space drop, is inserted unchanged as a text node; the invariant of the walk
+    holds again, with the text appended to the content of `cx` -/
+theorem roundtrip_text_partial (P : DomWalk.Parser) (w : DomWalk.WState) (base : List NodeCtx) (cx : NodeCtx) (ext : List NodeCtx)
+    (c : List Node) (t : TypeId) (q q' : Nat) (s : List Nat) (prev : Option (Node × String)) (ptag : Option String) (prevBr : Bool)
+    (hi : Inv P.S w base cx ext c) (hp : Plain P.S cx t q) (hinl : (P.S.nodeType t).inlineContent = true)
+    (hok : textOk cx.opts prev s = true)
+    (hdrop : cx.opts.preserveWs = false → startsWithSpace s = true → ext = [] → dropsLead cx prevBr = false)
+    (hm : (P.S.dfa t).matchType q P.S.textTy = some q') :
+    ∃ w', DomWalk.addTextNode P w (some s) ptag prevBr = .ok w' ∧
+      Inv P.S w' base { cx with content := c ++ [.text s []], mtch := some q' } [] (c ++ [.text s []]) ∧
+      w'.st.fresh = w.st.fresh :=
+  addTextNode_normal P w base cx ext c t q q' s prev ptag prevBr hi hp hinl hok hdrop hm
+
+open PM PM.RoundTrip PM.FromDom in
+/-- **direct placement** by `insert_node`: a mark-free node whose type the automaton of the open context accepts in its
+    state is appended to that context (after the finished contexts above it have been closed into it) -/
+theorem roundtrip_insert_partial (S : Schema) (wsPre : TypeId → Bool) (st : PState) (base : List NodeCtx) (cx : NodeCtx)
+    (ext : List NodeCtx) (c : List Node) (t : TypeId) (q q' : Nat) (node : Node)
+    (hn : st.nodes = base ++ cx :: ext) (ho : st.open_ = base.length) (hp : Plain S cx t q) (hs : Settles S cx ext c)
+    (hm : (S.dfa t).matchType q (S.tyOf node) = some q') (hmk : node.marks = []) :
+    st.insertNode S wsPre node =
+      .ok ({ st with nodes := base ++ [{ cx with content := c ++ [node], mtch := some q' }] }, true) :=
+  insertNode_plain S wsPre st base cx ext c t q q' node hn ho hp hs hm hmk
+
+open PM PM.RoundTrip PM.FromDom in
+/-- **direct placement** by `enter`: a type the automaton of the open context accepts is opened directly below it, as a
+    solid context with the whitespace mode `ws_options_for` gives -/
+theorem roundtrip_enter_partial (S : Schema) (wsPre : TypeId → Bool) (st : PState) (base : List NodeCtx) (cx : NodeCtx)
+    (ext : List NodeCtx) (c : List Node) (t : TypeId) (q q' : Nat) (ty : TypeId) (attrs : Option Attrs) (pw : WS) (a : Attrs)
+    (hn : st.nodes = base ++ cx :: ext) (ho : st.open_ = base.length) (hp : Plain S cx t q) (hpe : cx.pending = [])
+    (hs : Settles S cx ext c)
+    (hm : (S.dfa t).matchType q ty = some q') (ha : computeAttrs (S.nodeType ty).attrs (attrs.getD []) = .ok a) :
+    st.enter S wsPre ty attrs pw =
+      .ok ({ st with nodes := base ++ [{ cx with content := c, mtch := some q' },
+                                       { NodeCtx.new (some ty) attrs [] [] true (wsOptionsFor (wsPre ty) pw cx.opts) with uid := st.fresh }],
+                     open_ := base.length + 1, fresh := st.fresh + 1 }, true) :=
+  enter_plain S wsPre st base cx ext c t q q' ty attrs pw a hn ho hp hpe hs hm ha
+
+open PM PM.RoundTrip PM.FromDom in
+/-- **an element read back as a node opens directly**: `add_element_by_rule` for a rule naming the non-leaf type `tc` that
+    the automaton of the open context accepts calls `enter`, which opens `tc` directly below; the walk goes on one level
+    deeper with a fresh context that has nothing pending, and remembers that context's identity for `sync` -/
+theorem roundtrip_open_partial (P : DomWalk.Parser) (w : DomWalk.WState) (base : List NodeCtx) (cx : NodeCtx) (ext : List NodeCtx)
+    (c : List Node) (t : TypeId) (q q' : Nat) (tc : TypeId) (ra : Option Attrs) (a : Attrs) (tag : String) (r : DomWalk.TagRule)
+    (hi : Inv P.S w base cx ext c) (hp : Plain P.S cx t q) (hpe : cx.pending = []) (hr : r.node = some (some tc))
+    (hnl : (P.S.nodeType tc).isLeaf = false)
+    (hm : (P.S.dfa t).matchType q tc = some q') (ha : computeAttrs (P.S.nodeType tc).attrs (ra.getD []) = .ok a) :
+    ∃ w1, DomWalk.ruleOpen P w tag r ra = .ok (w1, ⟨true, none, false, w.st.fresh⟩) ∧
+      Inv P.S w1 (base ++ [{ cx with content := c, mtch := some q' }]) (newCtx P tc ra r.preserveWs cx.opts w.st.fresh) [] [] ∧
+      Plain P.S (newCtx P tc ra r.preserveWs cx.opts w.st.fresh) tc 0 :=
+  ⟨_, ruleOpen_node P w base cx ext c t q q' tc ra a tag r hi hp hpe hr hnl hm ha,
+    (afterEnter_inv P w base cx ext c q' tc ra r.preserveWs (.enter tc ra r.preserveWs) hi).1,
+    (afterEnter_inv P w base cx ext c q' tc ra r.preserveWs (.enter tc ra r.preserveWs) hi).2.1⟩
+
+open PM PM.RoundTrip PM.FromDom in
+/-- **the close of such an element**: `sync(start_in)` finds the node's context by its identity at the open depth, and the
+    walk steps out of it; the context itself stays until the next `close_extra` -/
+theorem roundtrip_close_partial (P : DomWalk.Parser) (w : DomWalk.WState) (pre : List NodeCtx) (N : NodeCtx) (ext : List NodeCtx)
+    (hn : w.st.nodes = pre ++ N :: ext) (ho : w.st.open_ = pre.length) (hpre : ∀ x ∈ pre, (x.uid == N.uid) = false) :
+    ∃ w', DomWalk.ruleClose P w ⟨true, none, false, N.uid⟩ = .ok w' ∧ w'.st.nodes = w.st.nodes ∧ w'.st.open_ = pre.length - 1 ∧
+      w'.st.fresh = w.st.fresh :=
+  ruleClose_sync P w pre N ext hn ho hpre
+
+open PM PM.RoundTrip PM.FromDom in
+/-- **the finish of a complete context is the node**: content at a valid end of the automaton, normalised, not ending in a
+    white space `finish` would strip (`lastOk`), attributes the rule supplied computing to `a`: no filler, no strip, no merge -/
+theorem roundtrip_finish_partial (S : Schema) (cx : NodeCtx) (t : TypeId) (q : Nat) (a : Attrs)
+    (hm : cx.mtch = some q) (hty : cx.ty = some t) (hv : (S.dfa t).validEnd q = true)
+    (ha : computeAttrs (S.nodeType t).attrs (cx.attrs.getD []) = .ok a) (hmk : cx.marks = [])
+    (hnl : (S.nodeType t).isLeaf = false) (hlast : lastOk cx.opts cx.content = true) (hnorm : fnorm cx.content = true) :
+    cx.finishNode S false t = .ok (.elem t a [] cx.content) :=
+  finishNode_plain S cx t q a hm hty hv ha hmk hnl hlast hnorm
+
+open PM PM.RoundTrip in
+/-- **export then import is the identity on mark-free documents**: for a schema given by its tables, `toDOM` functions
+    `D` and parse rules `R` in restricted form, every document that satisfies the decidable hypothesis `rtOk` (valid,
+    normalised, every node emitted as an element its first matching rule reads back with the same type and attributes,
+    text whitespace-normal for the mode in force) and carries no marks is serialised to HTML whose parse is the
+    document again.  Covers text, leaves (`br`, `hr`, `img`), nested blocks, lists (`normalize_list` moves nothing),
+    code blocks (`["pre", ["code", 0]]` with `preserve_whitespace: "full"`: the inner element is passed through, with
+    or without a mark rule for it), attributes (`h1`…`h6`, `img[src]`).
+    Partial with respect to the full statement only in the hypothesis `noMarks`. -/
+theorem roundtrip_markfree_partial (R : RParser) (D : ToDom) (doc : Node) (h : rtOk R D doc = true) (hnm : noMarks doc = true) :
+    roundTrip R D doc = .ok doc :=
+  roundtrip_markfree_core R D doc h hnm
+
+open PM PM.RoundTrip in
+/-- the two halves of it: the serializer's output, converted to the walk's abstract DOM with the oracle filled in, is
+    the canonical DOM of the document … -/
+theorem roundtrip_export_canonical_partial (R : RParser) (D : ToDom) (univ : List Mark) (kids : List Node) (opts : FromDom.Opts)
+    (pt : TypeId) (prev : Option (Node × String)) (hnm : noMarksList kids = true) (hok : kidsOk R D opts pt prev kids = true)
+    (hfn : fnormKids kids = true) (hch : chainOk kids = true) :
+    toDomList R.sel (Dom.serFrag (annotateList R.P.S D univ kids) [] []) = domOfList R D kids := by
+  rw [serFrag_nomarks R.P.S D univ kids [] hnm, List.nil_append]
+  exact ser_dom_list R D univ kids opts pt prev hnm hok hfn hch
+
+open PM PM.RoundTrip in
+/-- … and the walk over the canonical DOM rebuilds the document (whatever the tag of the fragment root) -/
+theorem roundtrip_import_canonical_partial (R : RParser) (D : ToDom) (doc : Node) (h : rtOk R D doc = true)
+    (hnm : noMarks doc = true) (rootTag : String) : DomWalk.parse R.P rootTag (domOfList R D doc.kids) = .ok doc :=
+  parse_canonical R D doc h hnm rootTag
+
+open PM PM.RoundTrip PM.FromDom in
+/-- **an emitted mark element opens**: with `pa` active and `pp` pending (the marks of the enclosing mark elements), a mark
+    that can follow them (higher rank, no exclusion) is appended to the pending marks; nothing is stashed -/
+theorem roundtrip_marks_open_partial (S : Schema) (st : PState) (base : List NodeCtx) (cx : NodeCtx) (t : TypeId) (q : Nat)
+    (pa pp : List TMark) (mk : TMark)
+    (hn : st.nodes = base ++ [cx]) (ho : st.open_ = base.length) (hs : MarkSt cx t q pa pp)
+    (hf : follows S ((pa ++ pp).map (·.2)) mk.2) :
+    st.addPendingMark S mk = .ok { st with nodes := base ++ [{ cx with pending := pp ++ [mk] }] } ∧
+    MarkSt { cx with pending := pp ++ [mk] } t q pa (pp ++ [mk]) :=
+  addPendingMark_marks S st base cx t q pa pp mk hn ho hs hf
+
+open PM PM.RoundTrip PM.FromDom in
+/-- **a node inserted inside emitted mark elements gets exactly their marks** (in particular the space between two
+    differently marked words keeps the marks it has): the pending marks become active in order, and the node is
+    appended with the active set = the marks of all enclosing mark elements, outermost first -/
+theorem roundtrip_marks_insert_partial (S : Schema) (wsPre : TypeId → Bool) (st : PState) (base : List NodeCtx) (cx : NodeCtx)
+    (t : TypeId) (q q' : Nat) (pa pp : List TMark) (node : Node)
+    (hn : st.nodes = base ++ [cx]) (ho : st.open_ = base.length) (hs : MarkSt cx t q pa pp)
+    (hch : Chain S ((pa ++ pp).map (·.2))) (hal : ∀ m ∈ pp, (S.nodeType t).allowsMarkType m.2.ty = true)
+    (hm : (S.dfa t).matchType q (S.tyOf node) = some q') (hmk : node.marks = []) :
+    ∃ aT, st.insertNode S wsPre node =
+      .ok ({ st with nodes := base ++ [{ cx with active := (pa ++ pp).map (·.2), pending := [], activeT := aT, mtch := some q',
+                                                  content := cx.content ++ [node.withMarks ((pa ++ pp).map (·.2))] }] }, true) :=
+  insertNode_marks S wsPre st base cx t q q' pa pp node hn ho hs hch hal hm hmk
+
+open PM PM.RoundTrip PM.FromDom in
+/-- **an emitted mark element closes** after a node was inserted in it: its mark is the last active one and is taken off -/
+theorem roundtrip_marks_close_partial (S : Schema) (st : PState) (base : List NodeCtx) (cx : NodeCtx) (t : TypeId) (q : Nat)
+    (pa : List TMark) (mk : TMark)
+    (hn : st.nodes = base ++ [cx]) (ho : st.open_ = base.length) (hs : MarkSt cx t q (pa ++ [mk]) [])
+    (hf : follows S (pa.map (·.2)) mk.2) :
+    ∃ aT, st.removePendingMark S mk (some base.length) =
+        .ok { st with nodes := base ++ [{ cx with active := pa.map (·.2), activeT := aT }] } ∧
+      MarkSt { cx with active := pa.map (·.2), activeT := aT } t q pa [] :=
+  removePendingMark_active S st base cx t q pa mk hn ho hs hf
+
+open PM PM.RoundTrip PM.FromDom in
+/-- **an emitted mark element in the walk**: matched first by a mark rule giving back the mark `m` (which can follow the
+    marks of the enclosing elements), it makes `m` pending, walks its children — if they leave all the marks active (a
+    node was inserted) — and takes `m` off again: the open context is back at the marks of the enclosing elements -/
+theorem roundtrip_marks_element_partial (R : RParser) (w : DomWalk.WState) (base : List NodeCtx) (cx : NodeCtx) (c c2 : List Node)
+    (t : TypeId) (q q2 : Nat) (pa pp : List TMark) (m : Mark) (tag : String) (attrs : List (String × List Char))
+    (r : DomWalk.TagRule) (ra : Option Attrs) (dkids : List DomWalk.DNode) (ptag : String) (prevBr : Bool)
+    (hi : Inv R.P.S w base cx [] c) (hs : MarkSt cx t q pa pp)
+    (hig : DomWalk.ignoreTags.contains tag = false) (hlt : DomWalk.listTags.contains tag = false)
+    (hf : firstRule R tag attrs = some (r, ra)) (hst : straight r = true) (hrn : r.node = none)
+    (hrm : r.mark = some (some m.ty)) (hca : computeAttrs (R.P.S.markType m.ty).attrs (ra.getD []) = .ok m.attrs)
+    (hfo : follows R.P.S ((pa ++ pp).map (·.2)) m)
+    (hkids : ∀ w1 mk, mk.2 = m → Inv R.P.S w1 base { cx with pending := pp ++ [mk] } [] c →
+      ∃ w2 cx2, DomWalk.addAll R.P tag dkids false w1 = .ok w2 ∧ Inv R.P.S w2 base cx2 [] c2 ∧
+        MarkSt cx2 t q2 (pa ++ pp ++ [mk]) [] ∧ cx2.uid = cx.uid) :
+    ∃ w3 cx3, DomWalk.addDom R.P ptag prevBr (.elem tag [] (candsFrom tag attrs R.sel 0) dkids) w = .ok w3 ∧
+      Inv R.P.S w3 base cx3 [] c2 ∧ MarkSt cx3 t q2 (pa ++ pp) [] ∧ cx3.uid = cx.uid :=
+  addDom_markElem R w base cx c c2 t q q2 pa pp m tag attrs r ra dkids ptag prevBr hi hs hig hlt hf hst hrn hrm hca hfo hkids
+
+open PM PM.RoundTrip PM.FromDom in
+/-- **the nesting `serialize_fragment` emits** for inline nodes with marks (texts and inline leaves whose marks are emitted
+    as `[tag, attrs, 0]`, spanning): the rendering of the forest `build kids [] []`; that forest is well formed (every leaf
+    below exactly its marks, every mark element contains a node) and its leaves are the nodes, in order -/
+theorem roundtrip_marks_export_partial (S : Schema) (D : ToDom) (univ : List Mark) (kids : List Node)
+    (hk : ∀ k ∈ kids, InlOk S D univ k) :
+    Dom.serFrag (annotateList S D univ kids) [] [] = forestHtml S D univ (build kids [] []) ∧
+    forestOk [] (build kids [] []) = true ∧ flatF (build kids [] []) = kids :=
+  ⟨by simpa [forestHtml] using serFrag_forest S D univ kids [] [] hk (fun x hx => by cases hx),
+   (build_top kids).1, (build_top kids).2⟩
+
+open PM PM.RoundTrip PM.FromDom in
+/-- **the walk over a forest of mark elements rebuilds the nodes with their marks**: inside an open textblock context
+    (type `t`, nothing pending or active), for a well-formed forest `F` whose leaves are whitespace-normal and faithfully
+    emitted (`kidsOk`), valid (`LeafHyp`: canonical, allowed mark sets) and accepted by the automaton, `add_all` over
+    the forest's DOM appends exactly the leaves — each with the marks of its enclosing mark elements, i.e. its own — and
+    leaves the context with nothing pending or active -/
+theorem roundtrip_marks_import_partial (R : RParser) (D : ToDom) (F : List MTree) (w : DomWalk.WState) (base : List NodeCtx)
+    (cx : NodeCtx) (c : List Node) (t : TypeId) (q qe : Nat) (opts : Opts) (prev : Option (Node × String)) (prevBr : Bool)
+    (ptag : String)
+    (hi : Inv R.P.S w base cx [] c) (hs : MarkSt cx t q [] []) (ho : cx.opts = opts) (hok : forestOk [] F = true)
+    (hko : kidsOk R D opts t prev (flatF F) = true)
+    (hlh : ∀ n ∈ flatF F, LeafHyp R t n) (hrun : (R.P.S.dfa t).run q (R.P.S.types (flatF F)) = some qe)
+    (hprev : PrevOk prev c prevBr) :
+    ∃ w' cx', DomWalk.addAll R.P ptag (forestDom R D F) prevBr w = .ok w' ∧ Inv R.P.S w' base cx' [] (c ++ flatF F) ∧
+      MarkSt cx' t qe [] [] ∧ Stable cx cx' := by
+  obtain ⟨w', cx', h1, h2, h3, h4⟩ := walk_forest R D F w base cx c t q qe opts prev prevBr ptag [] [] [] hi hs ho rfl
+    (fun m hm => by cases hm) hok hko hlh hrun hprev
+  exact ⟨w', cx', h1, h2, by simpa using h3, h4⟩
+
+open PM PM.RoundTrip in
+/-- **export then import is the identity** (C19, second half): for a schema given by its tables, `toDOM` functions `D` and
+    parse rules `R` in restricted form, every document that satisfies the decidable hypothesis `rtOk` — valid, normalised,
+    every node / mark emitted as an element that its first matching rule reads back with the same type and attributes,
+    text whitespace-normal for the whitespace mode in force, marked nodes only among the leaf children of a textblock —
+    is serialised to HTML whose parse is the document again: text, marks (spaces between differently marked words
+    survive), leaves, nested blocks, lists, code blocks with their newlines -/
+theorem roundtrip (R : RParser) (D : ToDom) (doc : Node) (h : rtOk R D doc = true) : roundTrip R D doc = .ok doc :=
+  roundtrip_core R D doc h
+
+namespace RoundTripExamples
+open PM.RoundTrip PM.FromDom
+-- labelled tests of the whitespace rule (`textOk`): "foo", "a b" are normal; a leading space at the start of a textblock,
+-- a double space, a tab are not; a leading space after a text that does not end in white space is ("spaces between
+-- differently marked words survive"), after one that does it is not; after a `<br>` it is not, after an `<img>` it is
+example : textOk {} none [102, 111, 111] = true := by decide
+example : textOk {} none [97, 32, 98] = true := by decide
+example : textOk {} none [32, 98] = false := by decide
+example : textOk {} none [97, 32, 32, 98] = false := by decide
+example : textOk {} none [97, 9, 98] = false := by decide
+example : textOk {} (some (.text [102, 111, 111] [⟨0, []⟩], "")) [32, 98, 97, 114] = true := by decide
+example : textOk {} (some (.text [102, 111, 32] [⟨0, []⟩], "")) [32, 98, 97, 114] = false := by decide
+example : textOk {} (some (.leaf 7 [] [], "br")) [32, 98] = false := by decide
+example : textOk {} (some (.leaf 6 [] [], "img")) [32, 98] = true := by decide
+-- in a code block (`preserve_whitespace: "full"`) newlines, tabs, runs of spaces survive; a carriage return does not
+example : textOk { preserveWs := true, full := true } none [97, 10, 32, 32, 9, 98, 10] = true := by decide
+example : textOk { preserveWs := true, full := true } none [97, 13, 10, 98] = false := by decide
+-- the strip at `finish`: a textblock must not end in a white space, a code block may
+example : lastOk {} [.text [97, 32] []] = false := by decide
+example : lastOk { preserveWs := true, full := true } [.text [97, 32] []] = true := by decide
+-- the oracle filling: `<a href="x" title="t">` is a candidate of `a[href]` (answer {"href": "x"}), not of `a[name]`
+example : (candsFrom "a" [("href", "x".toList), ("title", "t".toList)]
+    [{ tag := "p" }, { tag := "a", need := ["name"] }, { tag := "a", need := ["href"], copy := some [("href", "href")] }] 0).map
+      (fun c => (c.1.idx, match c.1.ga with
+        | .attrs (some a) => a
+        | _ => [])) = [(2, [("href", "\"x\"")])] := by decide
+-- a small schema in the shape of the bundled one: doc (block+), paragraph (inline*), code_block (text*, no marks,
+-- whitespace "pre"), text, hard_break; marks em, strong, code
+private def mkN (name : String) (isText isInline isLeaf inl : Bool) (dfa : Array DfaState) (markSet : Option (List MarkTypeId)) : NodeType :=
+  { name := name, isText := isText, isInline := isInline, isLeaf := isLeaf, isAtom := isLeaf,
+    inlineContent := inl, isolating := false, defining := false, code := false,
+    dfa := dfa, markSet := markSet, attrs := [] }
+private def SB : Schema :=
+  { nodes := #[mkN "doc" false false false false #[⟨false, [(1, 1), (2, 1)]⟩, ⟨true, [(1, 1), (2, 1)]⟩] none,
+               mkN "paragraph" false false false true #[⟨true, [(3, 0), (4, 0)]⟩] none,
+               mkN "code_block" false false false true #[⟨true, [(3, 0)]⟩] (some []),
+               mkN "text" true true true false #[⟨true, []⟩] none,
+               mkN "hard_break" false true true false #[⟨true, []⟩] none],
+    marks := #[⟨"em", [], true, []⟩, ⟨"strong", [], true, []⟩, ⟨"code", [], true, []⟩], top := 0, textTy := 3 }
+open PM.DomWalk in
+private def RB : RParser :=
+  { P := { S := SB, G := fun _ => [], wsPre := fun t => t == 2,
+           tags := [{ mark := some (some 0) }, { mark := some (some 0) }, { mark := some (some 1) }, { mark := some (some 1) },
+                    { mark := some (some 2) }, { node := some (some 1) }, { node := some (some 2), preserveWs := .full },
+                    { node := some (some 4) }],
+           styles := [] },
+    sel := [{ tag := "i" }, { tag := "em" }, { tag := "strong" }, { tag := "b" }, { tag := "code" }, { tag := "p" },
+            { tag := "pre" }, { tag := "br" }] }
+open PM.Dom in
+private def DB : ToDom :=
+  { node := fun t _ => match t with
+      | 1 => .el "p".toList [] [.hole]
+      | 2 => .el "pre".toList [] [.el "code".toList [] [.hole]]
+      | 4 => .el "br".toList [] []
+      | _ => .str []
+    mark := fun m _ => match m.ty with
+      | 0 => some (.el "em".toList [] [.hole])
+      | 1 => some (.el "strong".toList [] [.hole])
+      | 2 => some (.el "code".toList [] [.hole])
+      | _ => none
+    spanning := fun _ => true }
+/-- doc(p("a b", br, "c"), pre("x\n  y\n")) -/
+private def docCode : Node :=
+  .elem 0 [] [] [.elem 1 [] [] [.text [97, 32, 98] [], .leaf 4 [] [], .text [99] []],
+                 .elem 2 [] [] [.text [120, 10, 32, 32, 121, 10] []]]
+-- **a code block with newlines and runs of spaces survives the round trip** (by the theorem, its hypothesis decided
+-- by the kernel; the walk itself is a well-founded recursion and does not reduce)
+example : rtOk RB DB docCode = true := by decide
+example : roundTrip RB DB docCode = .ok docCode := roundtrip_markfree_partial RB DB docCode (by decide) (by decide)
+-- the serialised HTML of that document
+example : String.ofList (Dom.renderAll (serializeDoc SB DB docCode)) = "<p>a b<br>c</p><pre><code>x\n  y\n</code></pre>" := by decide
+-- the hypotheses of the mark steps are satisfiable: in this schema `strong` can follow `em`, and [em, strong] is a chain
+example : follows SB [⟨0, []⟩] ⟨1, []⟩ := by
+  intro o ho
+  simp only [List.mem_singleton] at ho
+  subst ho
+  exact ⟨⟨by decide, by decide⟩, by decide, by decide⟩
+-- the forest of p(em("a "), strong("b")) — "spaces between differently marked words": two mark elements, the space inside the first
+example : build [.text [97, 32] [⟨0, []⟩], .text [98] [⟨1, []⟩]] [] [] =
+    [.wrap ⟨0, []⟩ [.leaf (.text [97, 32] [⟨0, []⟩])], .wrap ⟨1, []⟩ [.leaf (.text [98] [⟨1, []⟩])]] := by rfl
+-- … and of em("a"), em+strong("b"), strong("c"): `em` stays open over the second node, `strong` is reopened for the third
+example : build [.text [97] [⟨0, []⟩], .text [98] [⟨0, []⟩, ⟨1, []⟩], .text [99] [⟨1, []⟩]] [] [] =
+    [.wrap ⟨0, []⟩ [.leaf (.text [97] [⟨0, []⟩]), .wrap ⟨1, []⟩ [.leaf (.text [98] [⟨0, []⟩, ⟨1, []⟩])]],
+     .wrap ⟨1, []⟩ [.leaf (.text [99] [⟨1, []⟩])]] := by rfl
+/-- doc(p(em("a "), strong("b"), " ", em+strong("c d")), pre("x\n  y\n")): differently marked words separated by spaces —
+    one space inside the first mark, one unmarked between two marked words — and a code block with newlines -/
+private def docMarks : Node :=
+  .elem 0 [] [] [.elem 1 [] [] [.text [97, 32] [⟨0, []⟩], .text [98] [⟨1, []⟩], .text [32] [],
+                                 .text [99, 32, 100] [⟨0, []⟩, ⟨1, []⟩]],
+                 .elem 2 [] [] [.text [120, 10, 32, 32, 121, 10] []]]
+-- **spaces between differently marked words and the newlines of a code block survive the round trip** (through the theorem,
+-- its hypothesis decided by the kernel)
+example : roundTrip RB DB docMarks = .ok docMarks := roundtrip RB DB docMarks (by decide)
+example : String.ofList (Dom.renderAll (serializeDoc SB DB docMarks)) =
+    "<p><em>a </em><strong>b</strong> <em><strong>c d</strong></em></p><pre><code>x\n  y\n</code></pre>" := by decide
+-- a document that is NOT whitespace-normal (a paragraph ending in a space) does not satisfy the hypothesis
+example : rtOk RB DB (.elem 0 [] [] [.elem 1 [] [] [.text [97, 32] []]]) = false := by decide
+end RoundTripExamples
 
 end PM.C19
